@@ -237,6 +237,7 @@ func (n *node) RouteSendEvent(from gen.PID, token gen.Ref, options gen.MessageOp
 		n.log.Trace("RouteSendEvent from %s with token %s", from, token)
 	}
 
+	var consumers []gen.PID
 	if from.Node == n.name {
 		// local producer. check if sender is allowed to send this event
 		value, found := n.events.Load(message.Event)
@@ -249,13 +250,18 @@ func (n *node) RouteSendEvent(from gen.PID, token gen.Ref, options gen.MessageOp
 		}
 
 		if event.last != nil {
+			// the list of the consumers is read under the lock the message is
+			// stored with (see RouteLinkEvent/RouteMonitorEvent)
 			event.lastLock.Lock()
 			event.last.Push(message)
+			consumers = n.targetManager.GetConsumersForTarget(message.Event)
 			event.lastLock.Unlock()
+		} else {
+			consumers = n.targetManager.GetConsumersForTarget(message.Event)
 		}
+	} else {
+		consumers = n.targetManager.GetConsumersForTarget(message.Event)
 	}
-
-	consumers := n.targetManager.GetConsumersForTarget(message.Event)
 	remote := make(map[gen.Atom]bool)
 	// a process can be there twice (it has a link and a monitor on this event)
 	served := make(map[gen.PID]bool)
@@ -813,22 +819,21 @@ func (n *node) RouteLinkEvent(pid gen.PID, target gen.Event) ([]gen.MessageEvent
 		}
 
 		event := value.(*eventOwner)
-		if err := n.targetManager.AddLink(pid, target); err != nil {
-			return nil, err
-		}
-		// the target could have been removed in between (its termination
-		// might not have seen this relation). check it once again
-		if _, exist := n.events.Load(target); exist == false {
-			if err := n.targetManager.RemoveLink(pid, target); err == nil {
-				return nil, gen.ErrEventUnknown
+		if event.last == nil {
+			if err := n.targetManager.AddLink(pid, target); err != nil {
+				return nil, err
 			}
-			// has been handled by the termination. the exit signal is on its way
-			return nil, nil
-		}
-
-		if event.last != nil {
-			// load last N events
+		} else {
+			// entering the list of the consumers and taking the buffered messages
+			// is one step for a publisher (it stores the message and reads that
+			// list under the same lock): a message is either among the buffered
+			// ones or sent to the new consumer, never both
 			event.lastLock.Lock()
+			if err := n.targetManager.AddLink(pid, target); err != nil {
+				event.lastLock.Unlock()
+				return nil, err
+			}
+			// load last N events
 			item := event.last.Item()
 			for {
 				if item == nil {
@@ -839,6 +844,15 @@ func (n *node) RouteLinkEvent(pid gen.PID, target gen.Event) ([]gen.MessageEvent
 				item = item.Next()
 			}
 			event.lastLock.Unlock()
+		}
+		// the target could have been removed in between (its termination
+		// might not have seen this relation). check it once again
+		if _, exist := n.events.Load(target); exist == false {
+			if err := n.targetManager.RemoveLink(pid, target); err == nil {
+				return nil, gen.ErrEventUnknown
+			}
+			// has been handled by the termination. the exit signal is on its way
+			return nil, nil
 		}
 
 		c := atomic.AddInt32(&event.consumers, 1)
@@ -1191,22 +1205,21 @@ func (n *node) RouteMonitorEvent(pid gen.PID, target gen.Event) ([]gen.MessageEv
 			return nil, gen.ErrEventUnknown
 		}
 		event := value.(*eventOwner)
-		if err := n.targetManager.AddMonitor(pid, target); err != nil {
-			return nil, err
-		}
-		// the target could have been removed in between (its termination
-		// might not have seen this relation). check it once again
-		if _, exist := n.events.Load(target); exist == false {
-			if err := n.targetManager.RemoveMonitor(pid, target); err == nil {
-				return nil, gen.ErrEventUnknown
+		if event.last == nil {
+			if err := n.targetManager.AddMonitor(pid, target); err != nil {
+				return nil, err
 			}
-			// has been handled by the termination. the down message is on its way
-			return nil, nil
-		}
-
-		if event.last != nil {
-			// load last N events
+		} else {
+			// entering the list of the consumers and taking the buffered messages
+			// is one step for a publisher (it stores the message and reads that
+			// list under the same lock): a message is either among the buffered
+			// ones or sent to the new consumer, never both
 			event.lastLock.Lock()
+			if err := n.targetManager.AddMonitor(pid, target); err != nil {
+				event.lastLock.Unlock()
+				return nil, err
+			}
+			// load last N events
 			item := event.last.Item()
 			for {
 				if item == nil {
@@ -1217,6 +1230,15 @@ func (n *node) RouteMonitorEvent(pid gen.PID, target gen.Event) ([]gen.MessageEv
 				item = item.Next()
 			}
 			event.lastLock.Unlock()
+		}
+		// the target could have been removed in between (its termination
+		// might not have seen this relation). check it once again
+		if _, exist := n.events.Load(target); exist == false {
+			if err := n.targetManager.RemoveMonitor(pid, target); err == nil {
+				return nil, gen.ErrEventUnknown
+			}
+			// has been handled by the termination. the down message is on its way
+			return nil, nil
 		}
 
 		c := atomic.AddInt32(&event.consumers, 1)
